@@ -29,6 +29,29 @@ CHECKS = {
   note="Map iteration order is an engine parameter (insertion, reverse, rotations), not Go's real randomisation; wildcard~comment "
        "is treated as unspecified. Known finding C20-null-array-asymmetry is reported as KNOWN-FINDING.",
   ref="DESIGN.md §4 C20"),
+
+ "C12": dict(
+  text="Bounded symbolic model checking of the real formats/json scanner through the public Document API: for ALL byte strings up to N "
+       "bytes (4 quick, 6 thorough), with and without AllowTrailingNonSpaceCharacters, Check() accepts exactly RFC 8259 (reference "
+       "recursive-descent recogniser in the harness); and prefix-probes: every prefix of 10 corpus documents (all value kinds, "
+       "escapes, exponents, nesting) followed by K arbitrary bytes (1 quick, 2 thorough) and EOF, so every scanner state the "
+       "corpus reaches is crossed with every byte class and with end of input. On every accepted input: the lexeme stream is "
+       "properly nested (harness-side stack), spans lie inside the content, the structural event list rebuilt from the stream "
+       "(object/array begin-end, key spans, literal spans) equals the reference decoder's, and Len() is the end of the value.",
+  note="Under the trailing-characters option a number cut inside its syntax (\"1e\", \"1.x\") is treated as unspecified (is it the "
+       "value 1 followed by text?). Decoded string VALUES are not compared here (spans are); that is C03's subject.",
+  ref="DESIGN.md §4 C12"),
+ "C19": dict(
+  text="Bounded symbolic model checking of the real generated containers RuleASTNodes, ASTNodes, Constraints and StringSet: ONE "
+       "operation (Set, Update, Delete of a present or absent key, Get/GetValue, Has, Len, Filter, Map, Find, Each, EachSafe; Add) "
+       "with arbitrary arguments from an ARBITRARY valid state of up to N distinct symbolic keys (N=3 quick, 4-5 thorough); "
+       "return values, callback visit sequences and the post-state (order slice and data map) equal those of a reference "
+       "insertion-ordered dictionary, and the representation invariant is re-established - an inductive step that covers "
+       "histories of any length within N keys; two-operation sequences are added as a cross-check. Key coincidences are "
+       "decided by the solver (symbolic map lookups).",
+  note="MarshalJSON is outside the claim (encoding/json reflection is not executed by the engine). Keys are one-byte strings / "
+       "small ints, values carry one symbolic byte of identity.",
+  ref="DESIGN.md §4 C19"),
 }
 
 NOT_APPLICABLE = {
